@@ -1320,14 +1320,17 @@ class ThreadsafeForwardingResult(TestResult):
                 self.result.tags(*self._global_tags)
             if self._any_tags(self._test_tags):
                 self.result.tags(*self._test_tags)
-            self._test_tags = set(), set()
             try:
                 method(test, *args, **kwargs)
             finally:
                 self.result.stopTest(test)
         finally:
+            # The buffered start time and test-local tags belong to this test
+            # only: drop them even when the target raised, so that they cannot
+            # leak into the block of the next test.
+            self._test_tags = set(), set()
+            self._test_start = None
             self.semaphore.release()
-        self._test_start = None
 
     def addError(self, test, err=None, details=None):
         self._add_result_with_semaphore(
